@@ -3,6 +3,7 @@ package cl
 import (
 	"fmt"
 	"strings"
+	"sync"
 	"testing"
 	"time"
 
@@ -41,7 +42,7 @@ func genC28(t *rapid.T) c28Case {
 	c := c28Case{KeepAliveMs: rapid.SampledFrom([]int{0, 0, 2000, 5000}).Draw(t, "keepalive"), Retries: uint(rapid.IntRange(0, 2).Draw(t, "retries")), SilentFrom: -1}
 	nb := rapid.IntRange(0, 12).Draw(t, "nbehaviours")
 	for i := 0; i < nb; i++ {
-		c.Behaviours = append(c.Behaviours, rapid.SampledFrom([]string{"ok", "ok", "ok", "silent", "silent", "wrongtype", "wrongid", "unsolicited", "disconnect", "garbage", "dupack"}).Draw(t, "behaviour"))
+		c.Behaviours = append(c.Behaviours, rapid.SampledFrom([]string{"ok", "ok", "ok", "silent", "silent", "wrongtype", "wrongid", "unsolicited", "disconnect", "garbage", "dupack", "nagrec"}).Draw(t, "behaviour"))
 	}
 	if rapid.IntRange(0, 3).Draw(t, "goes_silent") == 0 {
 		c.SilentFrom = rapid.IntRange(0, 10).Draw(t, "silent_from")
@@ -160,6 +161,10 @@ func runC28(c c28Case) (r vf.Result) {
 			gwDisconnected = true
 		}
 	}
+	nagging := map[uint16]bool{}
+	nagStop := make(chan struct{})
+	var nagWG sync.WaitGroup
+	defer func() { close(nagStop); nagWG.Wait() }()
 	var respond func(p snref.Pkt) []snref.Pkt
 	s.Respond = func(p snref.Pkt) []snref.Pkt {
 		out := respond(p)
@@ -185,7 +190,33 @@ func runC28(c c28Case) (r vf.Result) {
 			misbehaved = true
 		}
 		a := g.Answer(p)
+		if nagging[p.MsgID] && p.Type == snref.PUBREL {
+			return nil // the PUBCOMP never comes
+		}
 		switch b {
+		case "nagrec":
+			// a QoS 2 PUBLISH is answered with PUBREC, which the gateway then repeats every 300 ms for 12 s
+			// (well inside every retry period); it never sends the PUBCOMP
+			if p.Type == snref.PUBLISH && p.QoS == 2 {
+				nagging[p.MsgID] = true
+				rec := snref.Pkt{Type: snref.PUBREC, MsgID: p.MsgID}
+				nagWG.Add(1)
+				go func() {
+					defer nagWG.Done()
+					for i := 0; i < 40; i++ {
+						tm := time.NewTimer(300 * time.Millisecond)
+						select {
+						case <-nagStop:
+							tm.Stop()
+							return
+						case <-tm.C:
+						}
+						s.GatewaySend(rec, true)
+					}
+				}()
+				return []snref.Pkt{rec}
+			}
+			return a
 		case "silent":
 			return nil
 		case "wrongid":
@@ -295,7 +326,7 @@ end:
 func TestC28(t *testing.T) {
 	vf.Check(t, vf.Prop[c28Case]{
 		ID: "C28", Name: "calls-return", Bubble: true,
-		Rule: "real client (KeepAlive 0 / 2 s / 5 s, RetryCount 0-2) against an adversarial scripted gateway whose treatment of each successive client datagram is drawn (answer properly / stay silent / wrong message ID / wrong packet types / proper answer preceded by unsolicited PINGRESP+REGISTER+PUBLISH / DISCONNECT / undecodable datagram / duplicated answer), optionally silent for good from datagram k on; 1-6 operations: every API call (Connect, Register, Subscribe[Predefined], Unsubscribe, Publish[Predefined] QoS 0-3, Ping, Sleep, Disconnect), optionally two calls started at the same instant, time advances around the keep-alive ticks, unsolicited gateway packets; ended by Close, by a gateway DISCONNECT or not at all. Non-trivial = the gateway misbehaves at least once; concurrent calls are labelled; distinct by case.",
+		Rule: "real client (KeepAlive 0 / 2 s / 5 s, RetryCount 0-2) against an adversarial scripted gateway whose treatment of each successive client datagram is drawn (answer properly / stay silent / wrong message ID / wrong packet types / proper answer preceded by unsolicited PINGRESP+REGISTER+PUBLISH / DISCONNECT / undecodable datagram / duplicated answer / PUBREC repeated every 300 ms for 12 s with the PUBCOMP never sent), optionally silent for good from datagram k on; 1-6 operations: every API call (Connect, Register, Subscribe[Predefined], Unsubscribe, Publish[Predefined] QoS 0-3, Ping, Sleep, Disconnect), optionally two calls started at the same instant, time advances around the keep-alive ticks, unsolicited gateway packets; ended by Close, by a gateway DISCONNECT or not at all. Non-trivial = the gateway misbehaves at least once; concurrent calls are labelled; distinct by case.",
 		Assumptions: []string{"bounds on the virtual clock: Connect (RetryCount+1) x ConnectTimeout; Register/Subscribe/Unsubscribe/Ping/Disconnect/Close and Publish QoS 1 (RetryCount+1) x RetryDelay; Publish QoS 2 twice that; Sleep adds the sleep duration and the library's fixed 1-minute PINGRESP wait; +2 s (1 s receive poll, same-instant scheduling)",
 			"a hang is observed as 'not returned after 10 x the bound'; goroutines still blocked when the case ends are reported by the bubble itself"},
 		Gen: genC28,
